@@ -1,7 +1,7 @@
 (* C14 — Blank nodes keep identity: fresh nodes unique, labels stable and injective.
    A schedule is a list of atomic steps (one critical section or one atomic Add each);
    every theorem quantifies over all schedules, i.e. over all interleavings. *)
-From RK Require Import Base BNodes BNodesProofs.
+From RK Require Import Base BNodes BNodesProofs BNodesPass.
 
 (* every reachable world satisfies the freshness, provider and mapper invariants *)
 Theorem C14_invariants : forall sched,
@@ -49,6 +49,35 @@ Theorem C14_mapper_injective : forall w m b b' x,
   MInv w -> mapped_of w m b = Some x -> mapped_of w m b' = Some x -> b = b'.
 Proof. exact mapper_injective. Qed.
 Print Assumptions C14_mapper_injective.
+
+(* the label pass-through provider of a string factory (StringFactory.GetStringProvider(fallback), the provider the
+   decode/encode pipe installs): the invariants hold over every schedule that also uses it; its answer for a node of
+   its own factory is that node's label; and different nodes never get the same label - own labels against each other,
+   against the fallback's (relative to the premise that a document label is not one of the fallback's UUIDs: they are
+   values of different kinds here), and the fallback's among themselves *)
+Theorem C14_pass_through_invariants : forall xs,
+  WF (fst (xrun xs)) /\ PInv (fst (xrun xs)) /\ MInv (fst (xrun xs)).
+Proof. exact xrun_invariants. Qed.
+Print Assumptions C14_pass_through_invariants.
+
+Theorem C14_pass_through_recorded : forall w sf p k w' l,
+  xstep w (XGetS sf p k) = (w', YStr l) ->
+  w' = w /\ exists b, nth_error (w_nodes w) k = Some b /\ slabel_of w sf p b = Some (inl l).
+Proof. exact pass_through_recorded. Qed.
+Print Assumptions C14_pass_through_recorded.
+
+Theorem C14_pass_through_injective : forall w sf p b b' v,
+  PInv w -> slabel_of w sf p b = Some v -> slabel_of w sf p b' = Some v -> b = b'.
+Proof. exact pass_through_injective. Qed.
+Print Assumptions C14_pass_through_injective.
+
+Example C14_pass_through_example :
+  snd (xrun [XBase ONewStringFactory; XBase ONewStringFactory; XBase ONewUProvider;
+             XBase (OStrBlank 0 (s2b "x")); XBase (OStrBlank 1 (s2b "x")); XBase (OStrBlank 0 []);
+             XGetS 0 0 0; XGetS 0 0 1; XGetS 0 0 2; XGetS 0 0 1; XGetS 1 0 1])
+  = [YBase RNone; YBase RNone; YBase RNone; YBase (RNode (BStr 0 (s2b "x"))); YBase (RNode (BStr 1 (s2b "x")));
+     YBase (RNode (BFac 0 1)); YStr (s2b "x"); YBase (RUuid 0); YBase (RUuid 1); YBase (RUuid 0); YStr (s2b "x")].
+Proof. vm_compute. reflexivity. Qed.
 
 (* non-vacuity: a schedule exercising every kind of step *)
 Example C14_example :
